@@ -127,7 +127,9 @@ class TimedList(Generic[Item]):
             raise ValueError("Column Names do not match.")
         for col_name, (col_type, default) in cls._item_class()._props.items():
             if col_name not in df:
-                df[col_name] = pd.Series([default] * len(df), index=df.index)
+                df[col_name] = pd.Series(
+                    [deepcopy(default) for _ in range(len(df))], index=df.index
+                )
                 df[col_name] = df[col_name].astype(col_type)
 
         tl.df = df
@@ -218,7 +220,11 @@ class TimedList(Generic[Item]):
             ``TimedList`` with ``rows`` default
         """
         df = pd.DataFrame(cls._default())
-        return cls(df.loc[df.index.repeat(rows)].reset_index(drop=True))
+        df = df.loc[df.index.repeat(rows)].reset_index(drop=True)
+        # Every row owns its copy of a mutable default (e.g. a list of keysounds)
+        for col in df.columns[df.dtypes == object]:
+            df[col] = pd.Series([deepcopy(v) for v in df[col]], dtype=object)
+        return cls(df)
 
     def append(
         self, val: Series | TimedList | pd.Series | pd.DataFrame, sort: bool = False
